@@ -597,3 +597,100 @@ func c20blockComment(c *Ctx) {
 		c.R.Undecided(rule, goctlScan+".(*Scanner).scanDocument#closing", "paths that close a block comment are recognised", "no path returns a DOCUMENT token after two or more runes")
 	}
 }
+
+// c20positions (R14, round 6): where a construct stood in the source decides layout in one confirmed place only.
+// Idempotence needs every layout decision to be a function of something the formatter preserves. The line/column of a
+// token is not preserved in general: the formatter itself changes how many lines a construct takes (`type E {` newline
+// `}` is printed as `type E {}`; a struct written on one line is printed over several). The one comparison the tree
+// makes — (*Writer).write: "this node starts on a later line than the previous node of the same list ended" — is
+// stable because the writer reproduces exactly that relation. Any other function of the ast/format packages that
+// branches on a Position's Line or Column (e.g. Pos().Line == End().Line, "is this declaration one line long?") makes
+// the output of the second pass depend on the layout the first pass produced.
+func c20positions(c *Ctx) {
+	rule := "C20.R14"
+	confirmed := map[string]bool{"(*Writer).write": true}
+	var bad []string
+	reads, inConfirmed := 0, 0
+	for _, pkg := range []string{goctlAst, goctlFormat} {
+		for _, f := range c.P.AllFuncs(pkg) {
+			for _, b := range f.Blocks {
+				for _, ins := range b.Instrs {
+					var v ssa.Value
+					var st types.Type
+					var idx int
+					switch x := ins.(type) {
+					case *ssa.Field:
+						v, st, idx = x, x.X.Type(), x.Field
+					case *ssa.FieldAddr:
+						v, idx = x, x.Field
+						if pt, ok := x.X.Type().Underlying().(*types.Pointer); ok {
+							st = pt.Elem()
+						}
+					default:
+						continue
+					}
+					if st == nil || !strings.HasSuffix(typeString(st), "parser/api/token.Position") {
+						continue
+					}
+					s, ok := st.Underlying().(*types.Struct)
+					if !ok {
+						continue
+					}
+					fname := s.Field(idx).Name()
+					if fname != "Line" && fname != "Column" {
+						continue
+					}
+					// does it decide a branch? (follow loads, phis, conversions and local stores to a comparison)
+					decides := false
+					seen := map[ssa.Value]bool{}
+					var follow func(x ssa.Value)
+					follow = func(x ssa.Value) {
+						if x == nil || seen[x] || x.Referrers() == nil {
+							return
+						}
+						seen[x] = true
+						for _, r := range *x.Referrers() {
+							switch y := r.(type) {
+							case *ssa.BinOp:
+								switch y.Op {
+								case token.EQL, token.NEQ, token.LSS, token.LEQ, token.GTR, token.GEQ:
+									decides = true
+								default:
+									follow(y)
+								}
+							case *ssa.UnOp:
+								follow(y)
+							case *ssa.Phi:
+								follow(y)
+							case *ssa.Convert:
+								follow(y)
+							case *ssa.ChangeType:
+								follow(y)
+							case *ssa.Store:
+								if al, ok := y.Addr.(*ssa.Alloc); ok && y.Val == x {
+									follow(al)
+								}
+							}
+						}
+					}
+					follow(v)
+					if !decides {
+						continue
+					}
+					reads++
+					root := f
+					for root.Parent() != nil {
+						root = root.Parent()
+					}
+					if confirmed[root.RelString(root.Pkg.Pkg)] && pkg == goctlAst {
+						inConfirmed++
+						continue
+					}
+					bad = append(bad, fmt.Sprintf("%s: %s branches on a source %s: the formatter does not preserve how many lines a construct takes, so the second pass can decide differently from the first", c.P.Pos(ins.Pos()), funcDisplay(f), strings.ToLower(fname)))
+				}
+			}
+		}
+	}
+	sort.Strings(bad)
+	c.R.Check(len(bad) == 0 && inConfirmed >= 2, rule, goctlAst+"#position-dependent-layout", "source line/column numbers decide layout only in (*Writer).write's consecutive-node comparison (confirmed stable); no other function of the ast/format packages branches on them", "-", fmt.Sprintf("%d deciding reads, %d in the confirmed site; %s", reads, inConfirmed, strings.Join(bad, "; ")), bad, reads)
+}
